@@ -35,6 +35,9 @@ func (c *checker) rpc(e *sim.Ev) {
 		}
 		m[r.id] = r
 		c.evalWindow(c.server(e.S), r)
+		if r.kind == "tn" {
+			c.timeoutNow[e.S] = e.Seq
+		}
 		c.ext.deliver(c, r, e)
 	case "r.resp":
 		r := c.rpcs[e.A]
